@@ -162,8 +162,26 @@ func hashTape(t []uint32) uint64 {
 	return h
 }
 
+// knownFor returns the recorded known findings of a property (file from -known or $KAPSIM_KNOWN).
+var knownPath = os.Getenv("KAPSIM_KNOWN")
+var knownCache = map[string][]knownFinding{}
+
+func knownFor(prop string) []knownFinding {
+	if k, ok := knownCache[prop]; ok {
+		return k
+	}
+	k := loadKnown(knownPath, prop)
+	knownCache[prop] = k
+	return k
+}
+
 func execute(p *props.Prop, tier string, ff bool, g *gen.G, tapes [][]uint32) (*props.Ctx, props.Verdict) {
 	c := props.NewCtx(tier, ff, g, tapes)
+	if known := knownFor(p.ID); len(known) > 0 {
+		c.Known = func(class string, shape map[string]interface{}) bool {
+			return matchKnown(known, props.Verdict{Class: class, Shape: shape}) >= 0
+		}
+	}
 	v := p.Run(c)
 	if v.Class == "" && !v.OK {
 		v.OK = true
@@ -247,7 +265,10 @@ func cmdRun(args []string) {
 	knownFile := fs.String("known", "", "known_findings.json: matching failures do not count towards -maxfail and keep one replay file each")
 	fs.Parse(args)
 	p := getProp(*prop)
-	known := loadKnown(*knownFile, *prop)
+	if *knownFile != "" {
+		knownPath = *knownFile
+	}
+	known := knownFor(*prop)
 	knownSeen := map[int]bool{}
 	fails := 0
 	for i := *from; i < *from+*n; i++ {
@@ -363,6 +384,8 @@ func cmdMinimise(args []string) {
 	deadline := time.Now().Add(time.Duration(*budget) * time.Second)
 	class := rf.Class
 	tries, kept := 0, 0
+	rfShape, _ := rf.Shape.(map[string]interface{})
+	wasKnown := matchKnown(knownFor(rf.Property), props.Verdict{Class: rf.Class, Shape: rfShape}) >= 0
 
 	cur := &ReplayFile{}
 	*cur = *rf
@@ -372,7 +395,7 @@ func cmdMinimise(args []string) {
 		}
 		tries++
 		c, v := execute(p, rf.Tier, rf.FaultFree, gen.Replay(gt), wt)
-		if !v.OK && sameClass(v.Class, class) {
+		if !v.OK && sameClass(v.Class, class) && (matchKnown(knownFor(rf.Property), v) >= 0) == wasKnown {
 			kept++
 			cur.GenTape = append([]uint32(nil), c.G.Tape()...)
 			cur.WorldTapes = c.OutTapes
